@@ -117,5 +117,5 @@ LeaderOrNew(vo, v) == v \in GLLeaders(vo) \/ ~GLContains(vo, v)
 ValidEdit(vo, mode, d, k) ==
   /\ k # NAN /\ d # k
   /\ LeaderOrNew(vo, d) /\ LeaderOrNew(vo, k)
-  /\ (mode = "replace" => d \in GLLeaders(vo) /\ ~GLContains(vo, k))
+  /\ (mode = "replace" => d \in GLLeaders(vo) /\ ~GLContains(vo, k) /\ d # INF)   \* the unbounded interval stays
 =============================================================================
